@@ -440,7 +440,7 @@ func ruleSaveRestore(c *eng.Ctx) {
 					pushed, has = true, true
 				}
 			}
-			if !has {
+			if !has && h != clone && !eng.IsNilConst(stx.Val) {
 				noClone = stx.Pos()
 			}
 		})
